@@ -342,6 +342,8 @@ def _task(task):
         return _pairs_task(payload)
     if kind == "direct":
         return _direct_task(payload)
+    if kind == "numpykinds":
+        return _numpykinds_task(payload)
     part = Part()
     with worlds.world("posc") as db:
         model = Model(db)
@@ -530,6 +532,74 @@ def _direct_task(_):
     return part
 
 
+def _numpykinds_task(_):
+    """(1) Chains of two number operations on one object: the first number is a narrow numpy scalar (float16 / float32 /
+    int8 ...), the second an ordinary python float - what the first step stores as the value must not decide the
+    precision or range of the second (300 * float16(2) * 200.0 is 120000, not inf).  (2) The number operand is an
+    ndarray SUBCLASS with its own operator priority (numpy.ma.MaskedArray, one-dimensional): on either side the result
+    is still x's class with the unit kept (reciprocal for k/x and k//x), values as for a plain ndarray operand."""
+    import operator
+
+    part = Part()
+    ops2 = (("* 200.0", lambda r: r * 200.0, lambda v: v * 200.0), ("+ 0.1", lambda r: r + 0.1, lambda v: v + 0.1), ("200.0 * r", lambda r: 200.0 * r, lambda v: 200.0 * v), ("/ 0.001", lambda r: r / 0.001, lambda v: v / 0.001))
+    first = (("x*k", operator.mul, False), ("k*x", operator.mul, True), ("x+k", operator.add, False), ("k+x", operator.add, True), ("x-k", operator.sub, False), ("x/k", operator.truediv, False))
+    with worlds.world("posc"):
+        for kname, kf, kpy, ktol in SCALAR_K:
+            if not kname.startswith("np.") or kpy == 0:
+                continue
+            # (Scalar only: a Scalar holds a python float; the elements of a list / tuple / ndarray container follow numpy's
+            # own promotion rules, so there the narrower type is the operation applied to the values as numpy defines it)
+            for cls, mk in (("Scalar", lambda: Scalar(300.0, "m", "length")), ("Scalar(-7.5)", lambda: Scalar(-7.5, "m", "length"))):
+                xv = [300.0] if cls == "Scalar" else [-7.5]
+                for e1, f1, swap in first:
+                    for e2, f2, g2 in ops2:
+                        part.count("evaluations")
+                        sig = "C09:chain:%s: (%s with k=%s) then %s" % (cls, e1, kname, e2)
+                        snip = "import numpy as np\nfrom barril.units import *\nx = %s\nk = %s\nr = (%s)\nr2 = %s\nprint(repr(r), repr(r2))\n" % (
+                            {"Scalar": "Scalar(300.0, 'm', 'length')", "Scalar(-7.5)": "Scalar(-7.5, 'm', 'length')"}[cls], _kexpr(kname, 2), e1, e2.replace("r", "r") if e2.startswith("200") else "r " + e2)
+                        try:
+                            x = mk()
+                            r1 = f1(kf(), x) if swap else f1(x, kf())
+                            r2 = f2(r1)
+                            got = [r2.GetValue()]
+                        except Exception as e:
+                            part.violation(sig + ":raised", {"error": repr(e)}, snip)
+                            continue
+                        exp = [g2(f1(kpy, v) if swap else f1(v, kpy)) for v in xv]
+                        tol = (ktol or 0.0) * 4 + 1e-12
+                        bad = [(g, w) for g, w in zip(got, exp) if not (math.isfinite(float(g)) and abs(float(g) - w) <= tol * max(abs(w), 1.0))]
+                        if bad or r2.GetUnit() != "m" or len(got) != len(exp):
+                            part.violation(sig + ":value", {"got": [float(g) for g in got], "expected": exp, "unit": r2.GetUnit()}, snip)
+                        part.add("ktypes", ("chain", kname, cls))
+        # (2) ndarray subclass operands
+        mvals = [2.0, 4.0]
+        for label, mkk in (("MaskedArray", lambda: np.ma.MaskedArray(list(mvals))), ("MaskedArray with mask", lambda: np.ma.MaskedArray(list(mvals), mask=[False, False]))):
+            for cls, mk in (("Array[list]", lambda: Array([6.0, 9.0], "m", "length")), ("Array[tuple]", lambda: Array((6.0, 9.0), "m", "length")), ("Array[ndarray]", lambda: Array(np.array([6.0, 9.0]), "m", "length")),
+                            ("FixedArray[list]", lambda: FixedArray(2, "length", [6.0, 9.0], "m")), ("FixedArray[ndarray]", lambda: FixedArray(2, "length", np.array([6.0, 9.0]), "m"))):
+                for e, f, swap, unit in (("k*x", operator.mul, True, "m"), ("x*k", operator.mul, False, "m"), ("k+x", operator.add, True, "m"), ("x+k", operator.add, False, "m"), ("k-x", operator.sub, True, "m"), ("x-k", operator.sub, False, "m"),
+                                         ("k/x", operator.truediv, True, "1/m"), ("x/k", operator.truediv, False, "m"), ("k//x", operator.floordiv, True, "1/m")):
+                    part.count("evaluations")
+                    sig = "C09:ndarray-subclass operand:%s:%s with k=%s" % (cls, e, label)
+                    snip = "import numpy as np\nfrom barril.units import *\nk = np.ma.MaskedArray([2.0, 4.0]%s)\nx = %s\nr = %s\nprint(type(r), r)\nassert isinstance(r, type(x)) and r.GetUnit() == %r\n" % (
+                        ", mask=[False, False]" if "mask" in label else "", {"Array[list]": "Array([6.0, 9.0], 'm', 'length')", "Array[tuple]": "Array((6.0, 9.0), 'm', 'length')", "Array[ndarray]": "Array(np.array([6.0, 9.0]), 'm', 'length')",
+                                                                        "FixedArray[list]": "FixedArray(2, 'length', [6.0, 9.0], 'm')", "FixedArray[ndarray]": "FixedArray(2, 'length', np.array([6.0, 9.0]), 'm')"}[cls], e, unit)
+                    try:
+                        x = mk()
+                        r = f(mkk(), x) if swap else f(x, mkk())
+                    except Exception as ex:
+                        part.violation(sig + ":raised", {"error": repr(ex)}, snip)
+                        continue
+                    if not isinstance(r, type(x)):
+                        part.violation(sig + ":unit lost", {"result_type": type(r).__name__, "result": repr(r)}, snip)
+                        continue
+                    exp = [f(a, b) if swap else f(b, a) for a, b in zip(mvals, [6.0, 9.0])]
+                    got = [float(t) for t in np.asarray(r.GetValues(), dtype=float)]
+                    if r.GetUnit() != unit or got != exp:
+                        part.violation(sig + ":result", {"unit": r.GetUnit(), "expected_unit": unit, "values": got, "expected": exp}, snip)
+                    part.add("ktypes", ("subclass", label, cls))
+    return part
+
+
 def _kexpr(kname, n):
     if kname.startswith("ndarray 0-d float"):
         return "np.array(2.5)"
@@ -550,7 +620,7 @@ def run(ctx):
     n = 32 if ctx.thorough else 16
     tasks = [("pool", (depth, i, n)) for i in range(n)]
     tasks += [("pairs", STEPS[i::8]) for i in range(8)]
-    tasks += [("direct", None), ("mixed", None), ("ladder", None)]
+    tasks += [("direct", None), ("mixed", None), ("ladder", None), ("numpykinds", None)]
     if ctx.thorough:
         with worlds.world("posc") as db:
             qts = sorted(db.GetQuantityTypes(), key=lambda q: -len(db.GetUnits(q)))
@@ -561,7 +631,7 @@ def run(ctx):
     ctx.rule = (
         "complete product: quantity pool (simple, second category, affine, empty, unknown + every ordered composing map of the depth-%d derived-quantity graph) x 11 value-object shapes "
         "(Scalar, Array/FixedArray over list/tuple/ndarray incl. int16/int32/int64/float32 ndarrays, lengths 0,1,3 / 2,3) x 22 scalar numbers (13 python/numpy types; values incl. 0, -0.0, +-1) (+4 ndarray kinds for containers) x 10 expressions x 2 value assignments%s; "
-        "+ every ordered pair of 40 (shape, expression) steps on 7 quantities, each pair on a FRESH hand-registered database (depth-2 histories); non-trivial/distinct = distinct quantities in the pool; outcomes = distinct verdict keys" % (depth, "; plus every unit of the table x 4 shapes x 4 k x 6 expressions" if ctx.thorough else "")
+        "+ every ordered pair of 40 (shape, expression) steps on 7 quantities, each pair on a FRESH hand-registered database (depth-2 histories); + chains (narrow numpy number, then a python float: 10 numpy scalars x 2 Scalars x 6 x 4 expressions) and numpy.ma.MaskedArray operands (5 shapes x 9 expressions); non-trivial/distinct = distinct quantities in the pool; outcomes = distinct verdict keys" % (depth, "; plus every unit of the table x 4 shapes x 4 k x 6 expressions" if ctx.thorough else "")
     )
     ctx.coverage_extra = {"k_type_shape_combinations": len(ctx.part.sets.get("ktypes", ())), "table_units": c.get("table_units", 0), "zero_division_skipped": c.get("zero_division", 0), "expression_pairs": c.get("expression_pairs", 0)}
     ctx.assumptions = [
